@@ -112,7 +112,16 @@ def run_one(args):
                 lm = [struct(x) for x in nodes_of(m) if is_leaf(x)]
                 lf = [struct(x) for x in nodes_of(fresh) if is_leaf(x)]
                 broken = any(getattr(x, 'type', '') in ('error_node', 'error_leaf') for x in nodes_of(fresh))
-                sig = 'tree:same-leaves-different-recovery-nesting' if (lm == lf and broken) else 'tree'
+                # or: the text leaves a bracket open (more opening than closing bracket leaves in the fresh parse), so
+                # the fresh tokenizer reads the rest of the file at bracket depth > 0 (no NEWLINE / INDENT tokens)
+                depth = sum((x.value in ('(', '[', '{')) - (x.value in (')', ']', '}'))
+                            for x in nodes_of(fresh) if is_leaf(x) and x.type in ('operator', 'error_leaf'))
+                if lm == lf and broken:
+                    sig = 'tree:same-leaves-different-recovery-nesting'
+                elif broken and depth > 0:
+                    sig = 'tree:unclosed-bracket-depth-not-carried'
+                else:
+                    sig = 'tree'
                 return ('bnd:C04.equals_fresh_parse', sig, 'tree differs from a fresh parse at step %d' % step, texts[:step + 1])
             for x in nodes_of(m):
                 if not is_leaf(x):
